@@ -219,6 +219,9 @@ def run_arith(chk, bindir, tier, build="debug"):
         raise core.ToolError("judge self-test: %d falsified records were accepted, e.g. %s" % (len(missed), fals[missed[0]]))
     fals = [f for k, f in enumerate(fals) if pick[k] not in badset]
     sfx = "" if build == "debug" else "_release_build"
+    chk.extra["elapsed_calls_near_now" + sfx] = sum(1 for l in lines if l.get("near"))
+    chk.extra["elapsed_calls_ahead_within_the_same_second" + sfx] = sum(
+        1 for l in lines if l.get("near") and l["a"][0] == l["c"][0] and int(l["a"][1]) > int(l["c"][1]))
     chk.extra["arith_calls_judged" + sfx] = len(lines)
     chk.extra["arith_calls_in_exactness_domain" + sfx] = indom
     chk.extra["arith_calls_negative_seconds_panic_freedom_only" + sfx] = len(lines) - indom
